@@ -5,7 +5,7 @@
    Only statements here; proofs are in C03/InvA.v, C04/Proofs.v. *)
 From Coq Require Import ZArith List Bool Arith Lia.
 From RecordUpdate Require Import RecordSet.
-From FV Require Import C03.Model C03.Base C03.InvA C03.Proofs C04.Proofs.
+From FV Require Import C03.Model C03.Base C03.InvA C03.Proofs C03.Refute C04.Model C04.Measure C04.Progress C04.Proofs C04.Listener.
 Import ListNotations.
 Import RecordSetNotations.
 
@@ -54,10 +54,7 @@ Theorem c04_one_terminal_error : forall oc kc ic ec en hw hr sds cls input inq0 
   let s := run repaired (init oc kc ic ec en hw hr sds cls input inq0 errq0) cs in
   attempts s <= 1 /\ length (notified s) <= attempts s /\ attempts s <= ncas s /\
   (sumc cw_notify (closers s) + rcl pre_notify (rp s) = 0 -> attempts s = ncas s).
-Proof.
-  intros. destruct (notify_once oc kc ic ec en hw hr sds cls input inq0 errq0 cs) as (A & B & C).
-  repeat split; auto. exact (notify_exactly_one oc kc ic ec en hw hr sds cls input inq0 errq0 cs).
-Qed.
+Proof. exact one_terminal_error. Qed.
 Print Assumptions c04_one_terminal_error.
 
 Theorem c04_notify_never_blocks : forall oc kc ic ec en hw hr sds cls input inq0 errq0 cs j cl,
@@ -66,8 +63,83 @@ Theorem c04_notify_never_blocks : forall oc kc ic ec en hw hr sds cls input inq0
   step repaired s (Closer j) =
     Some (notify s (cerr cl) <| closers := upd (closers s) j (cl <| cp := CNotified |>) |>) /\
   (notified (notify s (cerr cl)) = notified s ++ [cerr cl] <-> (enil s = false /\ length (errq s) < ecap s)).
-Proof.
-  intros. split; [exact (notify_step_enabled oc kc ic ec en hw hr sds cls input inq0 errq0 cs j cl H H0)|].
-  apply notify_spec.
-Qed.
+Proof. exact notify_never_blocks. Qed.
 Print Assumptions c04_notify_never_blocks.
+
+(* "no call ... blocks forever", "closing ... returns", "the connection's reader and writer
+   goroutines exit and the peer sees the stream end" — as progress: in every reachable state
+   after the CAS, unless the shutdown is complete ([quiesced]: every Close/ForceClose call has
+   returned, both pumps exited, FIN sent, every spawned finally() finished), some thread OWNED
+   by the connection (writer, reader, closer, finalizer) has an enabled step, or the writer is
+   inside a socket write with a full kernel buffer and the peer's read is enabled ... *)
+Theorem c04_pumps_exit_no_stuck : forall oc kc ic ec en hw hr sds cls input inq0 errq0 cs,
+  let s := run repaired (init oc kc ic ec en hw hr sds cls input inq0 errq0) cs in
+  cst s <> Running ->
+  (exists c, owned c = true /\ step repaired s c <> None) \/
+  (peer_owes_read s /\ (1 <= kc -> step repaired s PeerRead <> None)) \/
+  quiesced s.
+Proof. exact pumps_exit_no_stuck. Qed.
+Print Assumptions c04_pumps_exit_no_stuck.
+
+(* ... and the measure [mu] bounds the number of owned steps along ANY continuation: no step
+   increases it, every owned step decreases it.  Under a scheduler that keeps running enabled
+   goroutines and a peer that keeps reading, the shutdown therefore completes. *)
+Theorem c04_pumps_exit_bounded : forall oc kc ic ec en hw hr sds cls input inq0 errq0 cs cs',
+  let s := run repaired (init oc kc ic ec en hw hr sds cls input inq0 errq0) cs in
+  cst s <> Running -> owned_steps s cs' + mu (run repaired s cs') <= mu s.
+Proof. exact pumps_exit_bounded. Qed.
+Print Assumptions c04_pumps_exit_bounded.
+
+Theorem c04_quiesced_means : forall s j cl, quiesced s -> nth_error (closers s) j = Some cl ->
+  (cp cl = CStart \/ exists w, cp cl = CRet w) /\ livew (wp s) = 0 /\ liver (rp s) = 0 /\ fin s = true.
+Proof. exact quiesced_means. Qed.
+Print Assumptions c04_quiesced_means.
+
+(* "Closing the listener stops accepting, returns, and releases its goroutines" (TcpServer,
+   C04/Model.v second system; n listeners, any backlog capacity, every schedule of serve
+   loops, dials, backlog consumers and Close) *)
+Theorem c04_listener_no_panic : forall n b cs, lpanic (lrun (linit n b) cs) = false.
+Proof. exact listener_no_panic. Qed.
+Print Assumptions c04_listener_no_panic.
+
+Theorem c04_listener_close : forall n b cs, let s := lrun (linit n b) cs in
+  lcloser s = Some LRet ->
+  (forall i x, nth_error (serve s) i = Some x -> x = SExited) /\
+  (forall i, i < n -> nth_error (lclosed s) i = Some true) /\
+  sdone s = true /\ bclosed s = true /\ eclosed s = true /\ swg s = 0.
+Proof. exact listener_close_releases. Qed.
+Print Assumptions c04_listener_close.
+
+Theorem c04_listener_stops_accepting : forall n b cs cs', let s := lrun (linit n b) cs in
+  lcloser s = Some LRet ->
+  handed (lrun s cs') = handed s /\ dialq (lrun s cs') = dialq s /\ serve (lrun s cs') = serve s.
+Proof. exact listener_stops_accepting. Qed.
+Print Assumptions c04_listener_stops_accepting.
+
+(* Close returns provided the backlog channel is drained: the only state in which neither Close
+   nor a serve loop can move has a serve loop parked on a full backlog channel *)
+Theorem c04_listener_close_returns_partial : forall n b cs, let s := lrun (linit n b) cs in
+  (exists pc, lcloser s = Some pc /\ pc <> LRet) ->
+  (exists c, lowned c = true /\ lstep s c <> None) \/ backlog_owed s.
+Proof. exact listener_no_stuck. Qed.
+Print Assumptions c04_listener_close_returns_partial.
+
+(* the code as first found (variant [legacy]): witness schedules *)
+Theorem c04_no_panic_legacy_refuted : panic (run legacy panic_init panic_sched) = true.
+Proof. exact legacy_send_panics. Qed.
+Print Assumptions c04_no_panic_legacy_refuted.
+
+Theorem c04_pumps_exit_legacy_refuted :
+  let s := run legacy stuck_init stuck_sched in
+  map cp (closers s) = [CNotified] /\ rp s = RHave p2 /\ done s = true /\ wp s = WExited /\ panic s = false /\
+  forall c, Refute.owned c = true -> step legacy s c = None.
+Proof. exact legacy_close_stuck. Qed.
+Print Assumptions c04_pumps_exit_legacy_refuted.
+
+(* non-vacuity: the same schedules on the repaired model *)
+Example c04_example_send : let s := run repaired panic_init panic_sched in
+  panic s = false /\ map results (senders s) = [[(1%Z, 0%Z)]].
+Proof. exact repaired_send_same_schedule. Qed.
+Example c04_example_not_stuck :
+  exists c, Refute.owned c = true /\ step repaired (run repaired stuck_init stuck_sched) c <> None.
+Proof. exact repaired_close_not_stuck. Qed.
